@@ -47,6 +47,9 @@ fn state_obs(d: &mut Drv, w: &World, extra: &[Address]) -> BTreeMap<String, Stri
     for a in &addrs {
         o.insert(format!("nonce({})", Hx::addr(*a).hex()), d.nonce(*a).to_string());
         o.insert(format!("code({})", Hx::addr(*a).hex()), d.code(*a).map(|c| c.hex()).unwrap_or("-".into()));
+        // the contract-address -> inscription-id table is state too (a failed creation creates no contract)
+        let (r, _) = d.rpc("brc20_getInscriptionIdByContractAddress", json!([Hx::addr(*a).hex0x()]));
+        o.insert(format!("inscription_of({})", Hx::addr(*a).hex()), format!("{:?}", r.ok()));
     }
     for t in &w.tools { for k in [0u64, 1, 2, 3, 4, 5, sim::SLOT_CHILD] { o.insert(format!("storage({},{})", Hx::addr(*t).hex(), k), d.storage(*t, k).hex()); } }
     for i in 0..4 {
@@ -318,7 +321,9 @@ pub fn run(out: &Path, seed: u64, thorough: bool) -> Result<(), Box<dyn std::err
         let sb = state_obs(&mut twin, &w, &extra);
         // the signer of the parked pair executed two transactions on A, none on B; pk3 two on B
         let ignore = [format!("nonce({})", Hx::addr(sim::signer_address(1)).hex()), format!("nonce({})", Hx::addr(sim::signer_address(2)).hex()), format!("nonce({})", Hx::addr(sim::pkscript_address(PKSCRIPTS[3])).hex())];
-        let dd: Vec<_> = diff(&sa, &sb).into_iter().filter(|(k, _, _)| !ignore.contains(k)).collect();
+        // (inscription ids are numbered by the driver and differ between the instance and its twin: that table is
+        //  compared before / after each failing transaction on the instance itself, not across the twins)
+        let dd: Vec<_> = diff(&sa, &sb).into_iter().filter(|(k, _, _)| !ignore.contains(k) && !k.starts_with("inscription_of(")).collect();
         bump("twin_comparisons", &mut counters);
         if !dd.is_empty() {
             fails.push(json!({"what": "C16: an instance that ran the failed transactions and a twin that ran no-ops instead ended in different EVM states", "case": {"network": cfg.network, "diff": dd.iter().take(6).collect::<Vec<_>>()}}));
